@@ -300,15 +300,17 @@ static void table_from_matrix(int with_rdepends)
         struct module *m = &mobj[i].m;
         unsigned pos, cnt;
         for (pos = 0; pos < MODS; pos++) {
-            const char *nm = NULL; cnt = 0;
-            for (j = 0; j < MODS; j++) if (in_dep.d[i][j]) { if (cnt == pos && !nm) nm = mname(j); cnt++; }
-            m->depends.vec[pos] = nm; m->depends.used = cnt;
+            /* (an index, not a pointer, is selected: null tests on nested pointer selections send the
+             * symbolic executor's value-set simplifier into very long computations) */
+            unsigned pick = 0; cnt = 0;
+            for (j = 0; j < MODS; j++) if (in_dep.d[i][j]) { if (cnt == pos) pick = j; cnt++; }
+            m->depends.vec[pos] = mname(pick); m->depends.used = cnt;
         }
         if (with_rdepends)
             for (pos = 0; pos < MODS; pos++) {
-                const char *nm = NULL; cnt = 0;
-                for (j = 0; j < MODS; j++) if (in_dep.d[j][i]) { if (cnt == pos && !nm) nm = mname(j); cnt++; }
-                m->rdepends.vec[pos] = nm; m->rdepends.used = cnt;
+                unsigned pick = 0; cnt = 0;
+                for (j = 0; j < MODS; j++) if (in_dep.d[j][i]) { if (cnt == pos) pick = j; cnt++; }
+                m->rdepends.vec[pos] = mname(pick); m->rdepends.used = cnt;
             }
     }
     relink(&modules);
